@@ -70,6 +70,12 @@ def c01(ctx):
     mrep = ctx.report(rpm)
     rep["violations"] += mrep["violations"]
     rep["evaluations"] += mrep["evaluations"]
+    # hostile declaration labels (MC_Meta hostile mode, all syntaxes incl. unquoted XML values): a panic in the
+    # declaration parsers kills the replayer, which vcheck reports as a C01 process crash
+    from .textfam import _meta
+    _r, hrep = _meta(ctx, "hostile2", False, "meta_hostile_c01")
+    rep["evaluations"] += hrep["evaluations"]
+    rep["violations"] += hrep["violations"]
     # zip layouts with the in-bounds obligations of ZipWalk.tla (DesignC01)
     z = ctx.tlc_expect_ok("MC_Zip.tla", "MC_Zip.cfg", timeout=3000, tag="MC_Zip_c01")
     os.remove(z["out"])
